@@ -20,6 +20,7 @@ EXPLANATION = ""
 ASSUMPTIONS = ["keys are ints/floats/bools (never NaN as content); exotic __lt__/__eq__ are not generated"]
 FLOORS = {"empty-init": (0.02, None), "repeats-in-init": (0.15, None), "foreign-probe": (0.25, None)}
 SHARDS = {"quick": 12, "thorough": 14}
+CASE_FUEL = 200000
 
 NUMS = [0, 1, -1, 2, 3, -3, 5, 2 ** 53, 2 ** 53 + 1, 2 ** 53 + 2, 0.5, -0.0, 1.0, 2.5, -2.5, float(2 ** 53), float("inf"),
         float("-inf"), True, False, 1e-9, 10 ** 30]
